@@ -19,7 +19,8 @@ RULES = {"C01.b", "C01.c", "C01.d", "C01.e", "C01.f", "C01.g", "C01.h", "C01.i",
 
 def check(ctx):
     F = ctx.facts
-    kernel.analyze(ctx, {"C01.b", "C01.c", "C01.i", "C05.a", "C05.b", "C05.c"})
+    # (C12.d: every attempt starts from the start state alone — the scratch buffers of the automaton are cleared on entry)
+    kernel.analyze(ctx, {"C01.b", "C01.c", "C01.i", "C05.a", "C05.b", "C05.c", "C12.d"})
     cursor.analyze(ctx, {"C01.d", "C01.e", "C07.b"})
     nfa_rules.analyze(ctx, {"C01.g"})
     casts.analyze(ctx, {"C01.h"})
